@@ -27,6 +27,14 @@ $BUILD -o bin/mkcarrier ./cmd/mkcarrier || fail_build mkcarrier
 # Stage 2: the model checker itself (imports /repo and the carriers).
 $BUILD -o bin/loxmc ./cmd/loxmc || fail_build loxmc
 
+# C13 (and setup): the map-order seam needs its own binary, built with every
+# map range of lox rewritten from the current tree.
+if [ "${1:-}" = "C13" ] || [ "${1:-}" = "setup" ]; then
+  $BUILD -o bin/maprewrite ./cmd/maprewrite || fail_build maprewrite
+  ./bin/maprewrite work/maporder >/dev/null || fail_build maprewrite-run
+  go build -tags "verif maporder" -overlay /verif/work/maporder/overlay.json -o bin/loxmc-maporder ./cmd/loxmc || fail_build loxmc-maporder
+fi
+
 if [ "${1:-}" = "setup" ]; then
   ./bin/loxmc setup
   exit $?
